@@ -142,6 +142,17 @@ class CFG(object):
         return n
 
     def _stmt(self, st, ins):
+        if isinstance(st, ast.Assign) and isinstance(st.value, ast.IfExp):
+            # `x = a if c else b` is a branch: decide c, then assign on each arm (the arms keep a reference to the statement)
+            t, f = self._cond(st.value.test, ins, st)
+            outs = []
+            for arm_ins, val in ((t, st.value.body), (f, st.value.orelse)):
+                a = ast.Assign(targets=st.targets, value=val)
+                ast.copy_location(a, st)
+                a.lineno = getattr(st, 'lineno', 0)
+                outs += self._stmt(a, arm_ins) if isinstance(val, ast.IfExp) else [(self._simple(a, arm_ins).id, None)]
+                self.nodes[outs[-1][0]].extra = st
+            return outs
         if isinstance(st, (ast.Assign, ast.AugAssign, ast.AnnAssign, ast.Expr, ast.Delete, ast.Pass,
                            ast.Import, ast.ImportFrom, ast.Global, ast.Nonlocal)):
             n = self._simple(st, ins)
@@ -364,7 +375,7 @@ class CFG(object):
         for n in self.nodes:
             if n.ast is None:
                 continue
-            if n.ast is astnode:
+            if n.ast is astnode or (n.kind == 'stmt' and n.extra is astnode):
                 out.append(n)
                 continue
             if n.kind in ('iter', 'with', 'loop', 'handler', 'def'):
